@@ -187,3 +187,57 @@ for _given in ('none', 'pch', 'psd', 'psw'):
                                                  "implies(n_psd == 1, roadm.per_degree_pch_psd['deg'] == p.target_psd_out_mWperGHz) and "
                                                  "implies(n_psw == 1, roadm.per_degree_pch_psw['deg'] == p.target_out_mWperSlotWidth)")]),
              modifies=['roadm.per_degree_pch_out_dbm[*]', 'roadm.per_degree_pch_psd[*]', 'roadm.per_degree_pch_psw[*]'])
+
+# ---------------------------------------------------------------- C08: span splitting, connector loss, padding
+contract('gnpy.core.network.calculate_new_length', props=['C08'],
+         params={'fiber_length': real(), 'bounds': obj('<ns>', start=integer(), stop=integer()), 'target_length': real()},
+         requires=[('positive', 'fiber_length > 0 and bounds.start > 0'),
+                   ('target_inside_bounds', 'bounds.start <= target_length and target_length <= bounds.stop')],
+         let={'l': 'result[0]', 'n': 'result[1]'},
+         ensures=[('at_least_one_span', 'n >= 1'),
+                  ('spans_add_up_to_the_original_length', 'l * n == fiber_length'),
+                  ('short_fibre_untouched', 'implies(fiber_length < bounds.stop, n == 1 and l == fiber_length)'),
+                  ('no_span_longer_than_the_maximum', 'implies(fiber_length >= bounds.stop, l <= bounds.stop)')],
+         use_at_calls=False, modifies=[])
+
+# ghost: the successor of a node in the graph
+contract('gnpy.core.network.get_next_node', trusted=True, props=[],
+         params={'node': obj('<ns>'), 'network': obj('<ns>')}, ensures=[], returns=expr('network.ghost_next'), pure=True,
+         note='ghost: next(network.successors(node)) is the contract parameter network.ghost_next (networkx assumed)')
+
+FIB_P = obj('Fiber', uid=string(), params=obj('FiberParams', _con_in=opt(real()), _con_out=opt(real()), _att_in=real()))
+for _nx in ('Fused', 'Edfa'):
+    contract('gnpy.core.network.add_connector_loss', name=f'gnpy.core.network.add_connector_loss[loop body, next node {_nx}]',
+             loop=0, props=['C08', 'C17'], use_at_calls=False,
+             params={'fiber': FIB_P, 'network': obj('<ns>', ghost_next=obj(_nx)), 'default_con_in': real(),
+                     'default_con_out': real(), 'EOL': real()},
+             let={'p': 'fiber.params'},
+             ensures=[('connector_losses_set', 'p.con_in is not None and p.con_out is not None'),
+                      ('con_in', 'p.con_in == (old(p.con_in) if old(p.con_in) is not None else default_con_in)'),
+                      # ageing margin added once, at the end of a span (not before a fused junction)
+                      ('con_out', 'p.con_out == (old(p.con_out) if old(p.con_out) is not None else default_con_out) + '
+                                  + ('0' if _nx == 'Fused' else 'EOL'))],
+             modifies=['fiber.params._con_in', 'fiber.params._con_out'])
+
+# span_loss as a ghost: loss of the span = base + att_in of its first fibre (the only term padding changes)
+contract('gnpy.core.network.find_first_node', trusted=True, props=[],
+         params={'network': obj('<ns>'), 'node': obj('<ns>')}, ensures=[], returns=expr('network.ghost_first'), pure=True,
+         note='ghost: first fibre of the span (graph walk, networkx assumed)')
+FIRST = obj('Fiber', uid=string(), params=obj('FiberParams', _att_in=real(), _con_in=real(), _con_out=real()))
+contract('gnpy.core.network.add_fiber_padding', name='gnpy.core.network.add_fiber_padding[loop body]', loop=0,
+         props=['C08', 'C09', 'C17'], use_at_calls=False,
+         params={'fiber': obj('Fiber', uid=string(), params=obj('FiberParams', _att_in=real())),
+                 'network': obj('<ns>', ghost_next=obj('Edfa'), ghost_first=FIRST, ghost_loss0=real()),
+                 'padding': real(), 'equipment': dct()},
+         native_patches={'gnpy.core.network.get_next_node': 'lambda node, network: network.ghost_next',
+                         'gnpy.core.network.find_first_node': 'lambda network, node: network.ghost_first',
+                         'gnpy.core.network.span_loss': 'lambda network, node, equipment, input_power=None: network.ghost_loss0'},
+         let={'first': 'network.ghost_first', 'loss0': 'span_loss(network, fiber, equipment)',
+              'actual': 'loss0 + (first.params.att_in - old(first.params.att_in))'},
+         requires=[('att_in_nonneg', 'network.ghost_first.params.att_in >= 0'),
+                   ('ghost_loss', 'span_loss(network, fiber, equipment) == network.ghost_loss0')],
+         ensures=[('span_loss_at_least_padding', 'actual >= padding'),
+                  ('padded_only_as_needed', 'actual == (loss0 if loss0 >= padding else padding)'),
+                  # the loss the amplifier design will compensate is the span's actual loss
+                  ('design_span_loss_is_the_actual_loss', 'fiber.design_span_loss == actual')],
+         modifies=['network.ghost_first.params._att_in', ('fiber.design_span_loss', real())])
